@@ -43,6 +43,7 @@ class Gen:
         self.hreg = {}                     # handle register -> (inode register, 'dir'|'file')
         self.lines = []
         self.fresh = 0
+        self.block_base = 0; self.blocks = 0
     def newname(self):
         self.fresh += 1; return 'n%d' % self.fresh
     def dreg(self):
@@ -169,6 +170,29 @@ class Gen:
         if self.r.random() < 0.25: k = self.anyreg()
         what = self.r.choice(['getattr', 'fsync', 'flush', 'lseek'] if kind == 'file' else ['getattr', 'fsyncdir', 'lseek'])
         self.emit('use %d %d %s' % (k, hk, what))
+    # ---- deterministic blocks: every kind of handle x every request that takes a handle x both release opcodes
+    HKINDS = ['open-file', 'open-dir', 'opendir']
+    HUSES = ['read', 'write', 'readdir', 'readdirplus', 'fsync', 'fsyncdir', 'flush', 'getattr', 'setattr', 'fallocate', 'lseek']
+    def handle_block(self, hkind, use, rel, list_first=True):
+        """lookup; open; (listing, for a directory inode, so that a position record exists); the request; release"""
+        k = self.nreg; self.nreg += 1; self.reg[k] = None
+        hk = self.nh; self.nh += 1
+        self.emit('lookup %d 0 %s' % (k, 'f' if hkind == 'open-file' else 'd1'))
+        self.emit('%s %d %d' % ('opendir' if hkind == 'opendir' else 'open', hk, k))
+        if hkind != 'open-file' and list_first and use not in ('readdir', 'readdirplus'):
+            self.emit('readdir %d %d 4096 0 100' % (k, hk))
+        if use in ('readdir', 'readdirplus'):
+            self.emit('%s %d %d 4096 0 1' % (use, k, hk))
+            self.emit('%s %d %d 4096 last 100' % (use, k, hk))
+        else:
+            self.emit('use %d %d %s' % (k, hk, use))
+        self.emit('%s %d %d' % (rel, k, hk))
+        self.emit('bforget %d:1000' % k)
+    def handle_blocks(self, base, n):
+        combos = [(a, b, c) for a in self.HKINDS for b in self.HUSES for c in ('release', 'releasedir')]
+        for j in range(n):
+            a, b, c = combos[(base + j) % len(combos)]
+            self.handle_block(a, b, c)
     def op_destroy(self):
         self.emit('destroy'); self.hreg = {}
     def op_release_all(self):
@@ -185,6 +209,13 @@ class Gen:
                      (self.op_link, 2), (self.op_rename, 2), (self.op_unlink, 4), (self.op_readdir, 10), (self.op_open, 14),
                      (self.op_release, 12), (self.op_use, 8), (self.op_destroy, 2)]}[self.profile]
         fs = [f for f, w in W]; ws = [w for f, w in W]
+        if self.profile == 'c15':
+            # in every history: a listing through a handle obtained by OPEN on a directory inode, and a failing
+            # READ on an OPENDIR handle that was listed, each released; then a slice of the systematic blocks
+            self.handle_block('open-dir', 'readdir', 'release' if self.block_base % 2 else 'releasedir')
+            self.handle_block('opendir', 'read' if self.block_base % 4 < 2 else 'write', 'releasedir')
+            self.handle_blocks(self.block_base, self.blocks)
+            n += len(self.lines)
         sp_at = self.r.randrange(n) if special else -1
         while len(self.lines) < n:
             if sp_at >= 0 and len(self.lines) >= sp_at:
